@@ -674,6 +674,20 @@ std::string gen(Rng &r, const Args &a) {
     else o << " (st " << d << " r3 " << GNAME[gb] << " " << c2 << ") (st " << d << " r2 " << GNAME[gb] << " " << c1 << ")";
     o << " (ld " << d << " r2 " << GNAME[gb] << " v0) (ld " << d << " r3 " << GNAME[gb] << " v1)";
   }
+  // scripted tail: a region holding two cells with different values is copied; a fact learnt about a value loaded
+  // from the source must not carry over to the other cell read through the copy (the summary of a region with
+  // several references may not be related to its copy by an equality)
+  if (r.below(10) == 0) {
+    unsigned d = r.below(NP), ga = r.below(3), gb = (ga + 1 + r.below(2)) % 3;
+    int c1 = (int)r.range(-9, 9), c2 = c1 + (int)r.range(1, 9);
+    o << " (top " << d << ") (rinit " << d << " " << GNAME[ga] << ") (rinit " << d << " " << GNAME[gb] << ")"
+      << " (mk " << d << " r0 " << GNAME[ga] << " 8 " << next_site++ << ") (mk " << d << " r1 " << GNAME[ga] << " 8 " << next_site++ << ")"
+      << " (st " << d << " r0 " << GNAME[ga] << " " << c1 << ") (st " << d << " r1 " << GNAME[ga] << " " << c2 << ")"
+      << " (rcopy " << d << " " << GNAME[gb] << " " << GNAME[ga] << ")";
+    bool fromSrc = r.coin(); // learn about the source and read the copy, or the other way round
+    o << " (ld " << d << " r1 " << GNAME[fromSrc ? ga : gb] << " v0) (assume " << d << " (le (lin " << c2 << " (-1 v0))))"
+      << " (ld " << d << " r0 " << GNAME[fromSrc ? gb : ga] << " v1)";
+  }
   o << "))";
   return o.str();
 }
